@@ -22,7 +22,7 @@ RULE = (
     "event, stop; payloads with spaces, newlines and both parties' prefix bytes) sent by the Publisher under test, 1 valid event "
     "from a second Publisher with prefix b'b', 5 malformed raw frames (one part, two parts, undecodable name, unknown name, "
     "undeserialisable payload; carrying the first publisher's prefix) x publisher prefix {b'',b'a',b'ab'} x dispatcher prefix "
-    "{b'',b'a',b'b'} x strict {F,T}. Oracle: delivered (name, doc) list == reference filter-and-decode list, in order; non-strict: "
+    "{b'',b'a',b'b'} x strict {F,T}; plus every sequence one frame shorter for 5 legal but unusual publisher prefixes (tab, newline, CR+VT, NUL, non-UTF-8 bytes) x dispatcher prefix {b'', the same prefix} x strict. Oracle: delivered (name, doc) list == reference filter-and-decode list, in order; non-strict: "
     "nothing escapes start() and later frames are still delivered; strict: an addressed (or unsplittable) malformed frame raises, "
     "everything before it was delivered and nothing after. non-trivial = at least one document delivered and at least one frame "
     "filtered or dropped in the same history (measured)"
@@ -37,8 +37,10 @@ ASSUMPTIONS = [
 
 STRICT_REQUIRES_DECODE_ERROR = False
 
-PUB_PREFIXES = (b"", b"a", b"ab")
-DISP_PREFIXES = (b"", b"a", b"b")
+# indices 0..2: the ordinary prefixes (full cross).  From 3: legal but unusual prefixes (any bytes without b" " are allowed):
+# other ASCII whitespace, NUL, non-UTF-8 bytes - crossed with the dispatcher prefixes {b"", the very same prefix}
+PUB_PREFIXES = (b"", b"a", b"ab", b"a\tb", b"\n", b"run\r1\x0b", b"\x00", b"\xff\xfe")
+DISP_PREFIXES = (b"", b"a", b"b", b"a\tb", b"\n", b"run\r1\x0b", b"\x00", b"\xff\xfe")
 FOREIGN_PREFIX = b"b"
 
 VALID = {
@@ -53,7 +55,7 @@ MALFORMED = KINDS[5:]
 
 
 def describe(tier):
-    return {"bounds": {"frame_kinds": len(KINDS), "max_frames": 3 if tier == "quick" else 4, "prefix_pairs": 9, "strict": [False, True]}}
+    return {"bounds": {"frame_kinds": len(KINDS), "max_frames": 3 if tier == "quick" else 4, "prefix_pairs": 9, "unusual_prefixes": [repr(x) for x in PUB_PREFIXES[3:]], "unusual_prefix_pairs": 10, "unusual_max_frames": 2 if tier == "quick" else 3, "strict": [False, True]}}
 
 
 def items(tier, seed):
@@ -65,6 +67,11 @@ def items(tier, seed):
             for strict in (False, True):
                 for first in range(len(KINDS)):
                     out.append({"tier": tier, "p": p, "d": d, "strict": strict, "first": first})
+    for p in range(3, len(PUB_PREFIXES)):
+        for d in (0, p):
+            for strict in (False, True):
+                for first in range(len(KINDS)):
+                    out.append({"tier": tier, "p": p, "d": d, "strict": strict, "first": first, "short": 1})
     import gc
 
     gc.freeze()  # keep the forked workers' collector off the parent's heap (copy-on-write faults dominate otherwise)
@@ -244,7 +251,7 @@ def run_case(seq, P, D, strict):
     from bluesky.callbacks.zmq import Bluesky0MQDecodeError
 
     seq = tuple(seq)
-    case = {"seq": list(seq), "P": P.decode(), "D": D.decode(), "strict": strict}
+    case = {"seq": list(seq), "P": P.decode("latin-1"), "D": D.decode("latin-1"), "strict": strict}
     head = f"seq={list(seq)} publisher prefix={P!r} dispatcher prefix={D!r} strict={strict}"
     delivered, raised, consumed = execute(seq, P, D, strict)
     alts, done = reference(seq, P, D, strict)
@@ -308,8 +315,8 @@ def run_case(seq, P, D, strict):
     return vs, outcome, nontrivial, digest, consumed
 
 
-def _sequences(tier, first):
-    maxlen = 3 if tier == "quick" else 4
+def _sequences(tier, first, short=0):
+    maxlen = (3 if tier == "quick" else 4) - short
     f = KINDS[first]
     out = []
     for n in range(0, maxlen):
@@ -323,7 +330,7 @@ def run_item(item):
     violations, states, nontrivial, outcomes = [], set(), set(), {}
     persig, suppressed = {}, 0
     n = steps = 0
-    for seq in _sequences(item["tier"], item["first"]):
+    for seq in _sequences(item["tier"], item["first"], item.get("short", 0)):
         n += 1
         key = hashlib.sha256(repr((seq, P, D, strict)).encode()).hexdigest()[:12]
         states.add(key)
@@ -353,5 +360,5 @@ def run_item(item):
 
 def replay(payload):
     c = payload["case"]
-    vs, _, _, _, _ = run_case(tuple(c["seq"]), c["P"].encode(), c["D"].encode(), c["strict"])
+    vs, _, _, _, _ = run_case(tuple(c["seq"]), c["P"].encode("latin-1"), c["D"].encode("latin-1"), c["strict"])
     return vs
